@@ -57,6 +57,11 @@ FUNCS6C = [
     (F, None, None, "to_serde_json_object", "to_serde_json_object", None),
     (F, None, None, "array_overlap_jsonb", "array_overlap_jsonb", None),
     (F, None, None, "object_insert_jsonb", "object_insert_jsonb", None),
+    (F, None, None, "strip_nulls_array", "strip_nulls_array", "strip"),
+    (F, None, None, "strip_nulls_object", "strip_nulls_object", "strip"),
+    (F, None, None, "strip_nulls_jsonb", "strip_nulls_jsonb", None),
+    (F, None, None, "build_array", "build_array", None),
+    (F, None, None, "build_object", "build_object", None),
 ]
 
 # public functions of the shape `if !is_jsonb(value) { <text branch; returns> } <jsonb helper>(value)`: the text branch
@@ -124,6 +129,98 @@ def rewrite_serde(toks):
     return out
 
 
+def rewrite_into_iter(toks):
+    """the signature of `build_array` / `build_object`: a parameter `impl IntoIterator<Item = T>` is a `Vec<T>` (the
+    function consumes it with one `.into_iter()`); a generic `K: AsRef<str>` is a `String` (the only thing a function
+    can do with a `K` is `.as_ref()`, which the translator erases on strings).  Only the tokens before the body."""
+    # end of the signature: the `{` at depth 0
+    depth, end = 0, None
+    for i, t in enumerate(toks):
+        if t.k == "p" and t.v in ("(", "[", "<"):
+            depth += 1
+        elif t.k == "p" and t.v in (")", "]", ">"):
+            depth -= 1
+        elif t.k == "p" and t.v == ">>":
+            depth -= 2
+        elif t.k == "p" and t.v == "{" and depth == 0:
+            end = i
+            break
+    if end is None:
+        return toks
+    sig, body = [], list(toks[end:])
+    for t in toks[:end]:
+        if t.k == "p" and t.v == ">>":
+            sig += [Tok("p", ">", t.pos), Tok("p", ">", t.pos)]
+        else:
+            sig.append(t)
+    if not any(t.k == "id" and t.v in ("IntoIterator", "AsRef") for t in sig):
+        return toks
+    # generic parameters `K: AsRef<str>`
+    asref = set()
+    if sig and sig[0].k == "p" and sig[0].v == "<":
+        out, i, depth = [], 0, 0
+        gl = []
+        while i < len(sig):
+            t = sig[i]
+            if t.k == "p" and t.v == "<":
+                depth += 1
+            elif t.k == "p" and t.v == ">":
+                depth -= 1
+                if depth == 0:
+                    gl = sig[1:i]
+                    sig = sig[i + 1:]
+                    break
+            i += 1
+        keep, j = [], 0
+        parts, cur, d = [], [], 0
+        for t in gl:
+            if t.k == "p" and t.v == "<":
+                d += 1
+            elif t.k == "p" and t.v == ">":
+                d -= 1
+            if t.k == "p" and t.v == "," and d == 0:
+                parts.append(cur); cur = []
+            else:
+                cur.append(t)
+        if cur:
+            parts.append(cur)
+        for part in parts:
+            txt = " ".join(str(t.v) for t in part)
+            m = re.fullmatch(r"([A-Za-z_][A-Za-z0-9_]*) : AsRef < str >", txt)
+            if m:
+                asref.add(m.group(1))
+            else:
+                keep.append(part)
+        gen = []
+        if keep:
+            gen = [Tok("p", "<", 0)]
+            for n, part in enumerate(keep):
+                gen += ([Tok("p", ",", 0)] if n else []) + part
+            gen.append(Tok("p", ">", 0))
+        sig = gen + sig
+    out, i = [], 0
+    while i < len(sig):
+        t = sig[i]
+        if t.k == "id" and t.v == "impl" and i + 4 < len(sig) and sig[i + 1].k == "id" and sig[i + 1].v == "IntoIterator" \
+                and sig[i + 2].k == "p" and sig[i + 2].v == "<" and sig[i + 3].k == "id" and sig[i + 3].v == "Item" \
+                and sig[i + 4].k == "p" and sig[i + 4].v == "=":
+            out += [Tok("id", "Vec", t.pos), Tok("p", "<", t.pos)]
+            i += 5
+            continue
+        if t.k == "id" and t.v in asref:
+            out.append(Tok("id", "String", t.pos))
+            i += 1
+            continue
+        out.append(t)
+        i += 1
+    if any(t.k == "id" and t.v in ("IntoIterator", "AsRef") for t in out):
+        raise Unsupported("generic parameters not in the subset")
+    for t in body:
+        if t.k == "id" and t.v in asref:
+            raise Unsupported("the generic parameter `%s` is named in the body" % t.v)
+    return out + body
+
+
 def lean_type6c(t, world):
     k = t[0]
     if t == SJ or t == SJNUM:
@@ -145,6 +242,8 @@ class FnTr6c(FnTr5b):
         self.lit_tmp = 0
         if any(t.k == "id" and t.v == "serde_json" for t in it["toks"]):
             it = dict(it, toks=rewrite_serde(list(it["toks"])))
+        if any(t.k == "id" and t.v in ("IntoIterator", "AsRef") for t in it["toks"]):
+            it = dict(it, toks=rewrite_into_iter(list(it["toks"])))
         FnTr5b.__init__(self, world, file, impl, trait, name, it, lean, lit_choice, group, holes)
 
     def resolve(self, t):
@@ -207,6 +306,15 @@ class FnTr6c(FnTr5b):
                     raise Unsupported("format!(\"{}\", ..) of %s (only a `Number`)" % tystr4(ty))
                 self.uses_fmt = True
                 return ls, "(Rs.displayNumber fmt__ %s)" % self.atom(t), STR
+        if k == "macro" and e.name == "unreachable":
+            toks = list(e.toks)
+            if len(toks) == 1 and toks[0].k == "str":
+                msg = "internal error: entered unreachable code: " + R2.rust_str_bytes(toks[0].v).decode("utf-8")
+            elif not toks:
+                msg = "internal error: entered unreachable code"
+            else:
+                raise Unsupported("unreachable! with format arguments")
+            return ["Ctl.ret (.panic %s)" % R2.lean_str_lit(msg.encode("utf-8"))], "()", ("never",)
         if k == "path" and e.segs == ["SerdeJsonValue", "Null"]:
             return [], "Rs.sjNull", SJ
         return FnTr5b.ex0(self, e, want)
@@ -256,6 +364,23 @@ class FnTr6c(FnTr5b):
         name, args, recv = e.name, e.args, e.recv
         while recv.kind == "paren":
             recv = recv.e
+        if name == "collect" and not args and want is not None and want[0] == "btree" and want[1] == STR:
+            # `<vec of pairs>.into_iter().map(|(k, v)| (..)).collect()` into a `BTreeMap<String, V>`: the pairs are
+            # inserted in order (the last value of a repeated key wins)
+            cur, closure = strip(recv), None
+            if cur.kind == "mcall" and cur.name == "map" and len(cur.args) == 1:
+                closure, cur = cur.args[0], strip(cur.recv)
+            if cur.kind == "mcall" and cur.name in ("into_iter", "iter") and not cur.args:
+                cur = strip(cur.recv)
+            ls, t, ty = self.ex(cur)
+            if ty is None or ty[0] not in ("vec", "slice", "deque") or is_bytes(ty):
+                raise Unsupported("`.collect()` into a BTreeMap from %s" % tystr4(ty))
+            term, ety = self.atom(t), ty[1]
+            if closure is not None:
+                fn, ety = self.pure_closure(closure, ety, ("tuple", (want[1], want[2])))
+                term = "(List.map %s %s)" % (fn, term)
+            self.unify(("tuple", (want[1], want[2])), ety, "collected pairs")
+            return ls, "(Rs.btreeCollect %s)" % term, want
         if name == "to_string" and not args:
             rty = self.peek_type(recv)
             if rty == ("named", "Number"):
